@@ -190,6 +190,7 @@ theorem dispHandle2_q2_gone2 (a : ACfg) (s : St) (v : Nat) :
     · exact ⟨rfl, rfl⟩
     · exact startClose_q2_gone2 a s _ _
   · exact ⟨rfl, rfl⟩
+  · exact ⟨rfl, rfl⟩
 
 /-! ### the close sequence does not touch the flow -/
 
@@ -333,6 +334,15 @@ theorem dispHandle2_InvF {a : ACfg} {s : St} (i : InvF a s) (v : Nat) : InvF a (
     · exact InvF.of_fcore (s := (s.emit2 (.closeRet (.handler v) .ok)).emit2 (.msgExit v)) rfl ((i.emit2 rfl).emit2 rfl)
     · exact startClose_InvF i _ _
   · fr i
+  · fr i
+
+theorem handlerDone_InvF {a : ACfg} {s : St} (i : InvF a s) (t : ATid) (v : Nat) : InvF a (handlerDone a s t v) := by
+  unfold handlerDone
+  split
+  · split
+    · exact InvF.of_fcore (s := (s.emit2 (.closeRet (.handler v) .ok)).emit2 (.msgExit v)) rfl ((i.emit2 rfl).emit2 rfl)
+    · exact startClose_InvF i _ _
+  · exact InvF.of_fcore (s := s.emit2 (.msgExit v)) rfl (i.emit2 rfl)
 
 theorem stepDisp2_InvF {a : ACfg} {s : St} (i : InvF a s) : InvF a (stepDisp2 a s) := by
   unfold stepDisp2
@@ -378,7 +388,7 @@ theorem stepRun2_InvF {a : ACfg} {s : St} (i : InvF a s) (t : ATid) : InvF a (st
       · exact stepDisp2_InvF i0
       · exact i0
     · split
-      · exact InvF.of_fcore (s := s0.emit2 (.msgExit _)) rfl (i0.emit2 rfl)
+      · exact handlerDone_InvF i0 _ _
       · fr i0
     · exact InvF.of_fcore (s := (s0.emit2 (.closeRet (.handler _) .ok)).emit2 (.msgExit _)) rfl ((i0.emit2 rfl).emit2 rfl)
     · split
